@@ -17,6 +17,11 @@ def asPyInt? : Val → Option Int
   | .bool b => some (if b then 1 else 0)
   | _ => none
 
+/-- `isinstance(v, int) and not isinstance(v, bool)` -/
+def isPlainInt : Val → Bool
+  | .int _ => true
+  | _ => false
+
 def isStr : Val → Bool | .str _ => true | _ => false
 def isDict : Val → Bool | .dict _ => true | _ => false
 def isList : Val → Bool | .list _ => true | _ => false
@@ -47,7 +52,7 @@ def schemaName (kv : List (Val × Val)) (parentNs : String) : R (String × Strin
 def maybeFloatIsFloat : Val → Bool
   | .float _ => true
   | .int _ => true           -- float(int) succeeds (OverflowError for huge ints is not caught: ignored)
-  | .bool _ => true
+  | .bool _ => false         -- booleans are rejected explicitly
   | .str s =>
       -- float("...") succeeds for numeric-looking strings; approximated: decimal digits / nan / inf
       let t := s.toList.map Char.toLower
@@ -70,20 +75,12 @@ def defaultMatches (d : Val) : Schema → Bool
     | .bytes => isStr d
     | .double => maybeFloatIsFloat d
     | .float => maybeFloatIsFloat d
-    | .int => (asPyInt? d).isSome
-    | .long => (asPyInt? d).isSome
+    | .int => isPlainInt d
+    | .long => isPlainInt d
   | _ => true
 
-/-- the dict-form primitive check of `_parse_schema` (`isinstance(default, float)` for float/double) -/
-def defaultMatchesDictPrim (d : Val) : Prim → Bool
-  | .null => (match d with | .none => true | _ => false)
-  | .boolean => (match d with | .bool _ => true | _ => false)
-  | .string => isStr d
-  | .bytes => isStr d
-  | .double => isFloat d
-  | .float => isFloat d
-  | .int => (asPyInt? d).isSome
-  | .long => (asPyInt? d).isSome
+/-- the dict-form primitive check of `_parse_schema`: `_default_matches_schema(default, schema_type)` -/
+def defaultMatchesDictPrim (d : Val) (p : Prim) : Bool := defaultMatches d (.prim p false none)
 
 /-- `SYMBOL_REGEX.fullmatch`: `[A-Za-z_][A-Za-z0-9_]*` -/
 def symbolOk (s : String) : Bool :=
@@ -108,6 +105,46 @@ structure St where
   names : List String
   env : Env
 
+/-- `if scale and (not isinstance(scale, int) or scale < 0): raise` -/
+def scaleCheck (scale : Option Val) : R Unit :=
+  match scale with
+  | none => .ok ()
+  | some v =>
+    if truthy v then
+      match asPyInt? v with
+      | none => .error .parse
+      | some n => if n < 0 then .error .parse else .ok ()
+    else .ok ()
+
+/-- `if precision: …` — a positive integer, and for `fixed` at most what `size` bytes can hold -/
+def precisionCheck (kv : List (Val × Val)) (precision : Option Val) (isFixed : Bool) : R Unit :=
+  match precision with
+  | none => .ok ()
+  | some v =>
+    if truthy v then
+      match asPyInt? v with
+      | none => .error .parse
+      | some n =>
+        if n ≤ 0 then .error .parse
+        else if isFixed then
+          match dictGetV kv "size" with
+          | some (.int sz) => if n > maxPrecision sz.toNat then .error .parse else .ok ()
+          | some _ => .error .type
+          | none => .error .index
+        else .ok ()
+    else .ok ()
+
+/-- `if scale and precision and precision < scale: raise` -/
+def crossCheck (scale precision : Option Val) : R Unit :=
+  match scale, precision with
+  | some sv, some pv =>
+    if truthy sv && truthy pv then
+      match asPyInt? pv, asPyInt? sv with
+      | some p, some s => if p < s then .error .parse else .ok ()
+      | _, _ => .ok ()
+    else .ok ()
+  | _, _ => .ok ()
+
 /-- checks of the `decimal` annotation; returns the typed annotation -/
 def parseLogical (kv : List (Val × Val)) (isFixed : Bool) : R (Option LogT) :=
   match dictGetV kv "logicalType" with
@@ -116,26 +153,9 @@ def parseLogical (kv : List (Val × Val)) (isFixed : Bool) : R (Option LogT) :=
     let scale := dictGetV kv "scale"
     let precision := dictGetV kv "precision"
     if lt == "decimal" then do
-      let scaleT := match scale with | some v => truthy v | none => false
-      let precT := match precision with | some v => truthy v | none => false
-      if scaleT then
-        match scale.bind asPyInt? with
-        | none => throw .parse
-        | some n => if n < 0 then throw .parse
-      if precT then
-        match precision.bind asPyInt? with
-        | none => throw .parse
-        | some n =>
-          if n ≤ 0 then throw .parse
-          if isFixed then
-            match dictGetV kv "size" with
-            | some (.int sz) => if n > maxPrecision sz.toNat then throw .parse
-            | some _ => throw .type
-            | none => throw .index
-      if scaleT && precT then
-        match precision.bind asPyInt?, scale.bind asPyInt? with
-        | some p, some s => if p < s then throw .parse
-        | _, _ => pure ()
+      scaleCheck scale
+      precisionCheck kv precision isFixed
+      crossCheck scale precision
       pure (some { name := lt, precision := precision.bind asPyInt?,
                    scale := (scale.bind asPyInt?).getD 0 })
     else
@@ -156,24 +176,150 @@ def parseListWith (p : Val → St → R (Schema × St)) : List Val → St → R 
       let (ss, st) ← parseListWith p rest st
       pure (s :: ss, st)
 
+/-- the part of `parse_field` that reads the field's attributes: aliases (must be a list), default,
+    name, type -/
+def fieldHeader (kv : List (Val × Val)) : R (List String × Option Val × String × Val) :=
+  match dictGetV kv "aliases" with
+  | some (.list xs) => fieldHeader2 kv (xs.filterMap fun v => match v with | .str s => some s | _ => none)
+  | some _ => .error .parse
+  | none => fieldHeader2 kv []
+where
+  fieldHeader2 (kv : List (Val × Val)) (aliases : List String) : R (List String × Option Val × String × Val) :=
+    match dictGetV kv "name", dictGetV kv "type" with
+    | some (.str n), some ty => .ok (aliases, dictGetV kv "default", n, ty)
+    | some (.str _), none => .error .index
+    | some _, _ => .error .other
+    | none, _ => .error .index
+
 /-- `parse_field` over the field list; `p type state default` parses the field's type -/
 def parseFieldsWith (p : Val → St → Option Val → R (Schema × St)) : List Val → St → R (List Field × St)
   | [], st => .ok ([], st)
   | .dict kv :: rest, st => do
-      let aliases ← match dictGetV kv "aliases" with
-        | none => pure []
-        | some (.list xs) => pure (xs.filterMap fun v => match v with | .str s => some s | _ => none)
-        | some _ => throw .parse
-      let dflt := dictGetV kv "default"
-      let name ← match dictGetV kv "name" with
-        | some (.str n) => pure n
-        | some _ => throw .other
-        | none => throw .index
-      let ty ← match dictGetV kv "type" with | some v => pure v | none => throw .index
+      let (aliases, dflt, name, ty) ← fieldHeader kv
       let (s, st) ← p ty st dflt
       let (fs, st) ← parseFieldsWith p rest st
       pure (.mk name s dflt aliases :: fs, st)
   | _ :: _, _ => .error .type
+
+/-- the `default is not NO_DEFAULT and not isinstance(default, …)` check of the complex types -/
+def checkDefault (dflt : Option Val) (ok : Val → Bool) (ign : Bool) : R Unit :=
+  match dflt with
+  | some d => if !ok d && !ign then .error .parse else .ok ()
+  | none => .ok ()
+
+def getKey (kv : List (Val × Val)) (k : String) : R Val :=
+  match dictGetV kv k with
+  | some v => .ok v
+  | none => .error .index
+
+/-- `schema_type == "array"` -/
+def parseArray (p : Val → St → R (Schema × St)) (kv : List (Val × Val)) (st : St) (dflt : Option Val) (ign : Bool) :
+    R (Schema × St) := do
+  let items ← getKey kv "items"
+  let (s, st) ← p items st
+  checkDefault dflt isList ign
+  pure (.array s, st)
+
+/-- `schema_type == "map"` -/
+def parseMap (p : Val → St → R (Schema × St)) (kv : List (Val × Val)) (st : St) (dflt : Option Val) (ign : Bool) :
+    R (Schema × St) := do
+  let values ← getKey kv "values"
+  let (s, st) ← p values st
+  checkDefault dflt isDict ign
+  pure (.map s, st)
+
+/-- a symbol is a string matching `SYMBOL_REGEX` -/
+def symValOk : Val → Bool
+  | .str t => symbolOk t
+  | _ => false
+
+def strOf? : Val → Option String
+  | .str s => some s
+  | _ => none
+
+/-- the symbol names of a list of values -/
+def symNames (symsL : List Val) : List String := symsL.filterMap strOf?
+
+/-- `_validate_enum_symbols`: every symbol a well-formed name, no duplicates, default among them -/
+def enumSymbols (kv : List (Val × Val)) : R (List String × Option Val) := do
+  let symsV ← getKey kv "symbols"
+  match symsV with
+  | .list symsL =>
+    if !(symsL.all symValOk) then .error .parse else
+    let syms := symNames symsL
+    if syms.eraseDups.length != syms.length then .error .parse else
+    match dictGetV kv "default" with
+    | some (.str d) => if !syms.contains d then .error .parse else .ok (syms, some (.str d))
+    | some _ => .error .parse
+    | none => .ok (syms, none)
+  | _ => .error .type
+
+/-- `schema_type == "enum"` -/
+def parseEnum (kv : List (Val × Val)) (ns : String) (st : St) (dflt : Option Val) (ign : Bool) : R (Schema × St) := do
+  let (_, full) ← schemaName kv ns
+  if st.names.contains full then .error .parse else
+  let st := { st with names := st.names ++ [full] }
+  let (syms, edef) ← enumSymbols kv
+  checkDefault dflt isStr ign
+  let s := Schema.enum full syms edef (aliasesOf kv)
+  pure (s, { st with env := st.env.set full s })
+
+def fixedSize (kv : List (Val × Val)) : R Nat :=
+  match dictGetV kv "size" with
+  | some (.int n) => if n < 0 then .error .other else .ok n.toNat
+  | some _ => .error .other
+  | none => .error .index
+
+/-- `schema_type == "fixed"` -/
+def parseFixed (kv : List (Val × Val)) (ns : String) (st : St) (dflt : Option Val) (ign : Bool) (lt : Option LogT) :
+    R (Schema × St) := do
+  let (_, full) ← schemaName kv ns
+  if st.names.contains full then .error .parse else
+  let st := { st with names := st.names ++ [full] }
+  checkDefault dflt isStr ign
+  let size ← fixedSize kv
+  let s := Schema.fixed full size lt (aliasesOf kv)
+  pure (s, { st with env := st.env.set full s })
+
+/-- `schema_type == "record"`: the name is registered before the fields are parsed, so that the record
+    can refer to itself -/
+def parseRecord (pf : String → List Val → St → R (List Field × St)) (kv : List (Val × Val)) (ns : String) (st : St)
+    (dflt : Option Val) (ign : Bool) : R (Schema × St) := do
+  let (ns', full) ← schemaName kv ns
+  if st.names.contains full then .error .parse else
+  let st := { st with names := st.names ++ [full] }
+  checkDefault dflt isDict ign
+  let aliases := aliasesOf kv
+  let st := { st with env := st.env.set full (.record full [] aliases) }
+  let fieldsV := dictListOr kv "fields"
+  let (fs, st) ← pf ns' fieldsV st
+  let s := Schema.record full fs aliases
+  pure (s, { st with env := st.env.set full s })
+
+/-- `schema_type in PRIMITIVES` (dict form) / anything else -/
+def parsePrimDict (ty : String) (st : St) (dflt : Option Val) (ign : Bool) (lt : Option LogT) : R (Schema × St) :=
+  match Prim.ofName? ty with
+  | some p => do
+    checkDefault dflt (fun d => defaultMatchesDictPrim d p) ign
+    pure (.prim p true lt, st)
+  | none =>
+    if ty == "error" || ty == "request" || ty == "error_union" then .error .other else .error .unknownType
+
+def dictType (kv : List (Val × Val)) : R String :=
+  match dictGetV kv "type" with
+  | some (.str t) => .ok t
+  | some _ => .error .type
+  | none => .error .index
+
+/-- a schema given as a string: a primitive or a by-name reference -/
+def parseName (name : String) (ns : String) (st : St) (dflt : Option Val) (ign : Bool) : R (Schema × St) :=
+  match Prim.ofName? name with
+  | some p => do
+    checkDefault dflt (fun d => defaultMatches d (.prim p false none)) ign
+    pure (.prim p false none, st)
+  | none =>
+    let full := if !name.contains '.' && ns != "" then ns ++ "." ++ name else name
+    if (st.env.get? full).isNone then .error .unknownType else .ok (.ref full, st)
 
 /-- `_parse_schema(schema, namespace, expand=False, _, names, named_schemas, default, ignore)`.
     `dflt = none` is `NO_DEFAULT`. The fuel bounds the nesting depth only. -/
@@ -185,100 +331,19 @@ def parse (fuel : Nat) (raw : Val) (ns : String) (st : St) (dflt : Option Val) (
   match raw with
   | .list xs => do
       let (bs, st) ← parseListWith (fun x st => parse fuel x ns st none ign) xs st
-      match dflt with
-      | some d =>
-        if !(bs.any (defaultMatches d)) && !ign then throw .parse
-      | none => pure ()
+      checkDefault dflt (fun d => bs.any (defaultMatches d)) ign
       pure (.union bs, st)
   | .dict kv => do
-      let ty ← match dictGetV kv "type" with
-        | some (.str t) => pure t
-        | some _ => throw .type
-        | none => throw .index
+      let ty ← dictType kv
       let lt ← parseLogical kv (ty == "fixed")
-      if ty == "array" then
-        let items ← match dictGetV kv "items" with | some v => pure v | none => throw .index
-        let (s, st) ← parse fuel items ns st none ign
-        match dflt with
-        | some d => if !isList d && !ign then throw .parse
-        | none => pure ()
-        pure (.array s, st)
-      else if ty == "map" then
-        let values ← match dictGetV kv "values" with | some v => pure v | none => throw .index
-        let (s, st) ← parse fuel values ns st none ign
-        match dflt with
-        | some d => if !isDict d && !ign then throw .parse
-        | none => pure ()
-        pure (.map s, st)
-      else if ty == "enum" then
-        let (_, full) ← schemaName kv ns
-        if st.names.contains full then throw .parse
-        let st := { st with names := st.names ++ [full] }
-        -- _validate_enum_symbols
-        let symsV ← match dictGetV kv "symbols" with | some v => pure v | none => throw .index
-        let symsL ← match symsV with | .list xs => pure xs | _ => throw .type
-        for s in symsL do
-          match s with
-          | .str t => if !symbolOk t then throw .parse
-          | _ => throw .parse
-        let syms := symsL.filterMap fun v => match v with | .str s => some s | _ => none
-        if syms.eraseDups.length != syms.length then throw .parse
-        let edef := dictGetV kv "default"
-        match edef with
-        | some (.str d) => if !syms.contains d then throw .parse
-        | some _ => throw .parse
-        | none => pure ()
-        match dflt with
-        | some d => if !isStr d && !ign then throw .parse
-        | none => pure ()
-        let s := Schema.enum full syms edef (aliasesOf kv)
-        pure (s, { st with env := st.env.set full s })
-      else if ty == "fixed" then
-        let (_, full) ← schemaName kv ns
-        if st.names.contains full then throw .parse
-        let st := { st with names := st.names ++ [full] }
-        match dflt with
-        | some d => if !isStr d && !ign then throw .parse
-        | none => pure ()
-        let size ← match dictGetV kv "size" with
-          | some (.int n) => if n < 0 then throw .other else pure n.toNat
-          | some _ => throw .other
-          | none => throw .index
-        let s := Schema.fixed full size lt (aliasesOf kv)
-        pure (s, { st with env := st.env.set full s })
+      if ty == "array" then parseArray (fun x st => parse fuel x ns st none ign) kv st dflt ign
+      else if ty == "map" then parseMap (fun x st => parse fuel x ns st none ign) kv st dflt ign
+      else if ty == "enum" then parseEnum kv ns st dflt ign
+      else if ty == "fixed" then parseFixed kv ns st dflt ign lt
       else if ty == "record" then
-        let (ns', full) ← schemaName kv ns
-        if st.names.contains full then throw .parse
-        let st := { st with names := st.names ++ [full] }
-        match dflt with
-        | some d => if !isDict d && !ign then throw .parse
-        | none => pure ()
-        let aliases := aliasesOf kv
-        -- registered before the fields are parsed, so that the record can refer to itself
-        let st := { st with env := st.env.set full (.record full [] aliases) }
-        let fieldsV := match dictGetV kv "fields" with | some (.list xs) => xs | _ => []
-        let (fs, st) ← parseFieldsWith (fun ty st d => parse fuel ty ns' st d ign) fieldsV st
-        let s := Schema.record full fs aliases
-        pure (s, { st with env := st.env.set full s })
-      else
-        match Prim.ofName? ty, dflt with
-        | some p, some d =>
-          if !defaultMatchesDictPrim d p && !ign then throw .parse
-          else pure (.prim p true lt, st)
-        | some p, none => pure (.prim p true lt, st)
-        | none, _ =>
-          if ty == "error" || ty == "request" || ty == "error_union" then throw .other
-          else throw .unknownType
-  | .str name =>
-      match Prim.ofName? name, dflt with
-      | some p, some d =>
-        if !defaultMatches d (.prim p false none) && !ign then throw .parse
-        else pure (.prim p false none, st)
-      | some p, none => pure (.prim p false none, st)
-      | none, _ =>
-        let full := if !name.contains '.' && ns != "" then ns ++ "." ++ name else name
-        if (st.env.get? full).isNone then throw .unknownType
-        else pure (.ref full, st)
+        parseRecord (fun ns' fs st => parseFieldsWith (fun ty st d => parse fuel ty ns' st d ign) fs st) kv ns st dflt ign
+      else parsePrimDict ty st dflt ign lt
+  | .str name => parseName name ns st dflt ign
   | _ => .error .type
 
 /-- `parse_schema(schema, named_schemas)` for a raw (unparsed) schema: a top-level list is parsed
